@@ -651,10 +651,12 @@ class SymArr:
         return self._ew(o, lambda a, b: _numeric(a) * _numeric(b), swap=True)
 
     def __truediv__(self, o):
-        return self._ew(o, div, kind="f")
+        _divisor_nonzero(o, self)
+        return self._ew(o, _div_quiet, kind="f")
 
     def __rtruediv__(self, o):
-        return self._ew(o, div, kind="f", swap=True)
+        _divisor_nonzero(self, self)
+        return self._ew(o, _div_quiet, kind="f", swap=True)
 
     def __floordiv__(self, o):
         return self._ew(o, floordiv)
@@ -833,6 +835,37 @@ class SymArr:
 
     def tolist(self):
         return list(self)
+
+
+def _div_quiet(a, b):
+    """element division; the non-zero obligation is emitted eagerly for the whole array"""
+    c = ctx()
+    c.in_spec += 1
+    try:
+        return div(a, b)
+    finally:
+        c.in_spec -= 1
+
+
+def _divisor_nonzero(d, ref):
+    """Eager obligation: every element of the divisor is non-zero (numpy would give inf/nan)."""
+    from . import spec as S
+
+    c = ctx()
+    if c.in_spec or c.concrete:
+        return
+    nm = "divide.nonzero[%s]" % c.fresh_name("dv")
+    if isinstance(d, SymArr):
+        snap = d.snapshot()
+        if d.mask is not None:
+            mfn = d.mask[1]
+            S.prove(nm, S.Forall(d.shape, lambda *i: implies(mfn(*i), _numeric(snap(*i)) != 0)), kind="domain")
+        else:
+            S.prove(nm, S.Forall(d.shape, lambda *i: _numeric(snap(*i)) != 0), kind="domain")
+    elif is_sym(d):
+        c.oblige(nm, _numeric(d) != 0, kind="domain")
+    elif d == 0:
+        raise ZeroDivisionError("division by zero")
 
 
 def mask_key(mask):
